@@ -10,13 +10,62 @@ R20.4 the merge happens inside the callback on every success path, with the nest
 from __future__ import annotations
 
 import ast
-from typing import List, Set
+from typing import List, Set, Dict
 
 from ..front_py import AnalysisError, FuncInfo, walk_local, norm, dotted
 from ..dataflow import Defs, Provenance, stores_in
 from ..types_lite import members
 from ..front_lark import Grammar
 from ..callbacks import callbacks, transformer_class
+
+
+def path_atoms_of(pv, path_arg):
+    return {a for a in (pv.of(path_arg) if path_arg is not None else set()) if not a.startswith(("call:", "const:"))}
+
+
+def mentions(eng, f, expr: ast.AST, names: Set[str], depth: int = 0) -> bool:
+    """Does the *value* of expr (a message / node) depend on one of `names` on every path?  Arguments of
+    repo functions count only if every return of the callee depends on the corresponding parameter."""
+    cg, prog = eng.cg, eng.prog
+    if isinstance(expr, ast.Name):
+        return expr.id in names
+    if isinstance(expr, ast.Attribute):
+        return mentions(eng, f, expr.value, names, depth)
+    if isinstance(expr, ast.Call):
+        cs = cg.site_of.get(id(expr))
+        callees = [prog.functions[c] for c in (cs.callees if cs else []) if c in prog.functions]
+        if callees and depth < 3 and not any(c.name in ("__init__", "__post_init__") for c in callees):
+            # interprocedural: parameter must influence every return of every callee
+            for i, a in enumerate(expr.args):
+                if mentions(eng, f, a, names, depth):
+                    ok_all = True
+                    for g in callees:
+                        gps = [p.arg for p in g.params]
+                        off = 1 if (g.cls is not None and gps and gps[0] == "self") else 0
+                        if i + off >= len(gps):
+                            ok_all = False
+                            break
+                        pn = gps[i + off]
+                        rets = [n.value for n in walk_local(g.node) if isinstance(n, ast.Return) and n.value is not None]
+                        if not rets or not all(mentions(eng, g, r, {pn}, depth + 1) for r in rets):
+                            ok_all = False
+                    if ok_all:
+                        return True
+            if isinstance(expr.func, ast.Attribute) and mentions(eng, f, expr.func.value, names, depth) and not callees:
+                return True
+            return False
+        return any(mentions(eng, f, a, names, depth) for a in list(expr.args) + [k.value for k in expr.keywords]) or (isinstance(expr.func, ast.Attribute) and mentions(eng, f, expr.func.value, names, depth))
+    if isinstance(expr, ast.JoinedStr):
+        return any(isinstance(v, ast.FormattedValue) and mentions(eng, f, v.value, names, depth) for v in expr.values)
+    if isinstance(expr, ast.BinOp):
+        return mentions(eng, f, expr.left, names, depth) or mentions(eng, f, expr.right, names, depth)
+    if isinstance(expr, ast.IfExp):
+        return mentions(eng, f, expr.body, names, depth) and mentions(eng, f, expr.orelse, names, depth)
+    if isinstance(expr, (ast.Tuple, ast.List)):
+        return any(mentions(eng, f, x, names, depth) for x in expr.elts)
+    if isinstance(expr, ast.Subscript):
+        return mentions(eng, f, expr.value, names, depth)
+    return False
 
 
 def run(eng, rep) -> None:
@@ -108,6 +157,24 @@ def run(eng, rep) -> None:
             if isinstance(n, ast.Assign) and norm(n.targets[0]) == "self.path" and norm(n.value) in ("self.filename.parent", "pathlib.Path(filename).parent", "self.filename.resolve().parent"):
                 okp = True
     rep.check(okp, "R20.2", tcls.file, tcls.qual + ".__init__", "self.path = self.filename.parent", "directory of the file being transformed", "self.path is not the directory of the file being transformed")
+    # the transformer's own location is fixed at construction
+    for mname, m in tcls.methods.items():
+        if mname == "__init__":
+            continue
+        for kind, tgt, st in stores_in(m.node):
+            if norm(tgt).split("[")[0] in ("self.path", "self.filename"):
+                rep.violation("R20.2", m.file, m.qual, norm(st, 60), "the importing file's location is changed while transforming: later imports in the same file resolve against a different directory")
+    # the text parsed is, on every path, what was read from the resolved module path
+    psites0 = [cs for cs in cg.sites_in(f) if any(x.endswith("Lark.parse") for x in cs.externals)]
+    if psites0 and psites0[0].node.args and isinstance(psites0[0].node.args[0], ast.Name):
+        sname = psites0[0].node.args[0].id
+        for k, v, st in defs.values(sname):
+            if v is None:
+                continue
+            a_v = pv.of(v)
+            reads_file = ("call:.read" in a_v or "call:.read_text" in a_v) and bool(path_atoms_of(pv, path_arg) & a_v)
+            rep.check(reads_file, "R20.2", f.file, f.qual, "%s = %s" % (sname, norm(v, 50)), "module text is read from the resolved path",
+                      "on some path the text parsed for the module is not read from the resolved module path (%s): a different file's declarations are imported" % ",".join(sorted(x for x in a_v if not x.startswith("const:"))[:4]))
     # nested transformer rooted at the imported file
     a0 = ctor.node.args[0] if ctor.node.args else None
     a0_atoms = pv.of(a0) if a0 is not None else set()
@@ -154,12 +221,8 @@ def run(eng, rep) -> None:
             if not is_err:
                 continue
             n_err += 1
-            stop = Provenance(f.node, stop_names=set(defs.binds) | set(defs.params))
-            a = set()
-            for x in list(n.args) + [k.value for k in n.keywords]:
-                a |= stop.of(x)
-            names = {z.split(".")[0].split("[")[0] for z in a if not z.startswith(("const:", "call:"))}
-            exc_file = any(z.endswith(".filename") for z in a)
-            rep.check(bool(names & fname_roots) or exc_file, "R20.3", f.file, f.qual, norm(n, 90), "error mentions the module file",
-                      "failure while importing a module is reported without naming the module/file")
+            exc_names = {h.name for h in ast.walk(f.node) if isinstance(h, ast.ExceptHandler) and h.name and h.type is not None and "FileNotFound" in norm(h.type)}
+            okm = any(mentions(eng, f, x, fname_roots | exc_names) for x in list(n.args) + [k.value for k in n.keywords])
+            rep.check(okm, "R20.3", f.file, f.qual, norm(n, 90), "error mentions the module file",
+                      "failure while importing a module is reported without naming the module/file (on some path neither the message nor the cited node carries the module's file name)")
     rep.floor("R20.3", "error constructions in the import callback", n_err, 3)
